@@ -241,7 +241,7 @@ Proof.
   apply bind_ok; [auto with okdb|]. intros [fp fd].
   destruct (remote_feature pe src) as [[en rf]|]; [|apply ok_ok].
   destruct (h_cls (dg_hd d)) as [k|]; [|apply bind_ok; [auto with okdb | intros; apply ok_ok]].
-  destruct lfo as [lf|]; [|apply bind_ok; [auto with okdb | intros; apply ok_ok]].
+  destruct lfo as [lf|]; [|destruct (is_cls k CResult); [apply ok_ok | apply bind_ok; [auto with okdb | intros; apply ok_ok]]].
   apply bind_ok; [auto with okdb|]. intros _.
   apply bind_ok.
   - destruct (is_cls k CWrite); [|apply ok_ok].
